@@ -74,9 +74,11 @@ def _directly_asserted_variables(test_case: tc.TestCase) -> set[str]:
                 continue
             if isinstance(assertion, ReferenceAssertion):
                 source = assertion.source
-                # In the libcst representation the source is the variable name.
+                # In the libcst representation the source is the variable name or a
+                # dotted attribute path rooted at it (``var_0.field``); the variable
+                # that has to stay is the root of that path.
                 if isinstance(source, str):
-                    protected.add(source)
+                    protected.add(source.split(".", maxsplit=1)[0])
     return protected
 
 
